@@ -210,6 +210,8 @@ def b_len(it, args, kwargs, node):
         return IntV(len(v.items))
     if isinstance(v, PyLit):
         return IntV(len(v.value))
+    if isinstance(v, (ConstV, IntV)):
+        raise Raised(ExcV(TypeError, [], node=node, stack=it.stack, op=f'len({v!r})', definite=True))
     if isinstance(v, ObjV):
         it.note_unknown(node, f'len of object {v!r}')
     s = it.fresh('len')
